@@ -331,17 +331,21 @@ class LiteralMethod(DeserializationMethod):
 
     def deserialize(self, data: Any) -> Any:
         try:
-            return self.value_map[data]
+            value = self.value_map[data]
+            # True == 1 == 1.0 (and they hash equal): match on the class too
+            if data.__class__ in self.types:
+                return value
         except KeyError:
-            if self.coercer is not None:
-                for cls in self.types:
-                    try:
-                        return self.value_map[self.coercer(cls, data)]
-                    except KeyError:
-                        pass
-            raise ValidationError(format_error(self.error, data))
+            pass
         except TypeError:
             raise bad_type(data, *self.types)
+        if self.coercer is not None:
+            for cls in self.types:
+                try:
+                    return self.value_map[self.coercer(cls, data)]
+                except KeyError:
+                    pass
+        raise ValidationError(format_error(self.error, data))
 
 
 @dataclass
